@@ -138,6 +138,56 @@ theorem mergeBuffers_boxes {B : Type} (box : V × V × V → B) (hbox : BoxLaws 
     (ni.length = idx.length → ∃ cs cur, allCoords vs idx = some cs ∧ allCoords nv ni = some cur ∧ cur.map box = cs.map box) :=
   mergeBuffers_spec box hbox h
 
+/-! ## no panic: every operation is total on the meshes that exist
+
+`WF s`: every index of the index buffer designates a vertex.  `none` in the model is a Rust panic
+(`vertices[i]` out of bounds, or the `unwrap` in `append`). -/
+
+/-- every mesh returned by `with_flags` is well formed, whatever the input buffers (an out-of-bounds index makes
+`with_flags` panic at the latest in `rebuild_qbvh`) -/
+theorem withFlags_wellFormed (dim3 : Bool) (vs : List V) (idx : List Tri) (f : Flags) (s : Mesh V N)
+    (h : withFlags dim3 vs idx f = .ok s) : WF s :=
+  withFlags_wf' h
+
+/-- on in-bounds buffers `with_flags` never panics: it returns `EmptyIndices` (iff there is no triangle) or a mesh -/
+theorem withFlags_no_panic (dim3 : Bool) (vs : List V) (idx : List Tri) (f : Flags) (h : inBounds vs.length idx = true) :
+    (idx = [] ∧ (withFlags dim3 vs idx f : Built V N) = .emptyIndices) ∨
+    (idx ≠ [] ∧ ∃ s : Mesh V N, withFlags dim3 vs idx f = .ok s ∧ WF s) :=
+  withFlags_no_panic' dim3 vs idx f h
+
+/-- `set_flags` never panics on a well-formed mesh and leaves it well formed (this includes: no out-of-bounds access
+in `merge_duplicate_vertices`, `compute_topology`, `compute_connected_components`, `compute_pseudo_normals`) -/
+theorem setFlags_no_panic (dim3 : Bool) (s : Mesh V N) (f : Flags) (h : WF s) :
+    ∃ s' r, setFlags dim3 s f = some (s', r) ∧ WF s' :=
+  setFlags_no_panic' dim3 f h
+
+/-- `reverse` never panics on a well-formed mesh and leaves it well formed -/
+theorem reverse_no_panic (dim3 : Bool) (s : Mesh V N) (h : WF s) : ∃ s', reverse dim3 s = some s' ∧ WF s' :=
+  reverse_no_panic' dim3 h
+
+/-- `append` panics exactly when both meshes have lost all their triangles (`with_flags(..).unwrap()` on
+`EmptyIndices`); otherwise the result is well formed -/
+theorem append_panics_iff_empty (dim3 : Bool) (s rhs : Mesh V N) (h1 : WF s) (h2 : WF rhs) :
+    (s.indices = [] ∧ rhs.indices = [] ∧ append dim3 s rhs = none) ∨ (∃ s', append dim3 s rhs = some s' ∧ WF s') :=
+  append_no_panic' dim3 h1 h2
+
+/-- `compute_topology` never panics on a well-formed index buffer (it returns `Ok` or a `TopologyError`) -/
+theorem computeTopology_total (nv : Nat) (idx : List Tri) (h : inBounds nv idx = true) : computeTopology nv idx ≠ .panic :=
+  computeTopology_no_panic h
+
+/-- `compute_connected_components` never panics on a well-formed index buffer, and its three arrays are consistent:
+one colour per face; every colour is a valid range index; `ranges[j]` is the number of faces of colour `< j`
+(so range `j` has exactly as many slots as there are faces of colour `j`); `grouped_faces` has one slot per face -/
+theorem connectedComponents_total (nv : Nat) (idx : List Tri) (h : inBounds nv idx = true) :
+    ∃ cc, computeCC nv idx = some cc ∧ cc.faceColors.length = idx.length ∧ cc.groupedFaces.length = idx.length ∧
+      (∀ c ∈ cc.faceColors, c + 1 < cc.ranges.length) ∧
+      (∀ j : Nat, j < cc.ranges.length → cc.ranges[j]? = some (below cc.faceColors j)) :=
+  computeCC_some h
+
+/-- non-vacuity: a two-component mesh -/
+example : ∃ cc, computeCC 6 [⟨0,1,2⟩, ⟨3,4,5⟩, ⟨2,1,0⟩] = some cc ∧ cc.faceColors = [0, 1, 0] ∧ cc.ranges = [0, 2, 3] ∧
+    cc.groupedFaces = [0, 2, 1] := ⟨_, rfl, by decide, by decide, by decide⟩
+
 /-! ## "what a fresh build would give" is well defined -/
 
 /-- the fixes do not change `TriMesh::with_flags`: as written and fixed, it builds the same mesh -/
